@@ -5,8 +5,8 @@ From Coq Require Import Lia.
 From RV.Model Require Import Base Word Limbs Bytes DivRecip DivSmall Redc.
 From RV.Model Require DivRef DivKnuth Shift.
 From RV.Gen Require Import Prim Scalar.
-From RV.Model Require Add Mul UDiv Conv Bits Pow.
-From RV.Proofs Require Import BaseFacts PfGenScalar PfGenAdd PfGenMul PfGenDiv PfGenSpecial PfGenCtor PfGenBits PfGenDivRef PfGenLimbs PfGenRedc PfGenKnuth PfGenShift PfGenPow.
+From RV.Model Require Add Mul UDiv Conv Bits Pow Modular.
+From RV.Proofs Require Import BaseFacts PfGenScalar PfGenAdd PfGenMul PfGenDiv PfGenSpecial PfGenCtor PfGenBits PfGenDivRef PfGenLimbs PfGenRedc PfGenKnuth PfGenShift PfGenPow PfGenModular.
 
 Theorem GenTie_source_equals_model :
   (forall bits, 0 <= bits -> bits + 63 < B -> g_nlimbs bits = Val (nlimbs bits)) /\
@@ -406,6 +406,25 @@ Theorem GenTie_pow_rs : forall bits a e,
 Proof. exact g_pow_eq. Qed.
 Print Assumptions GenTie_pow_rs.
 
+(* src/modular.rs: reduce_mod, add_mod (`>=`, `%=`, `-=` through Ord::cmp and impl_bin_op!) and the
+   Uint-level mul_redc / square_redc (the const generic N of the kernels is the array length);
+   mul_mod (raw-pointer view of the product buffer), pow_mod and inv_mod are outside the subset *)
+Theorem GenTie_modular_rs : forall bits a b m inv,
+  0 < bits -> nlimbs bits < B -> canon bits a -> canon bits b -> canon bits m ->
+  g_reduce_mod bits (nlimbs bits) a m = Modular.reduce_mod bits a m /\
+  g_add_mod bits (nlimbs bits) a b m = Modular.add_mod bits a b m /\
+  g_u_mul_redc bits (nlimbs bits) a b m inv = Redc.uint_mul_redc bits a b m inv /\
+  g_u_square_redc bits (nlimbs bits) a m inv = Redc.uint_square_redc bits a m inv.
+Proof.
+  intros bits a b m inv Hpos HB Ca Cb Cm.
+  pose proof Ca as (La & Wa & _). pose proof Cb as (Lb & Wb & _). pose proof Cm as (Lm & Wm & _).
+  exact (conj (g_reduce_mod_eq bits a m)
+        (conj (g_add_mod_eq bits a b m ltac:(lia) ltac:(lia) Ca Cb Cm)
+        (conj (g_u_mul_redc_eq bits m inv Hpos HB Lm Wm a b La Lb Wa Wb)
+              (g_u_square_redc_eq bits m inv Hpos HB Lm Wm a La Wa)))).
+Qed.
+Print Assumptions GenTie_modular_rs.
+
 (* the premises are satisfiable and the generated code computes: reciprocal(2^63) = 2^64 - 1 *)
 Example GenTie_nonvacuous :
   g_reciprocal_mg10 (2 ^ 63) = Val (2 ^ 64 - 1) /\ g_mask 65 = Val 1 /\ g_nlimbs 65 = Val 2 /\
@@ -427,6 +446,8 @@ Example GenTie_nonvacuous :
   g_arithmetic_shr 65 2 [0; 1] 64 = Val [2 ^ 64 - 1; 1] /\
   g_bitxor 65 2 [5; 1] [3; 1] = Val [6; 0] /\
   g_leading_zeros 65 2 [5; 0] = Val 62 /\
+  g_add_mod 65 2 [2 ^ 64 - 1; 1] [2 ^ 64 - 1; 1] [2 ^ 64 - 3; 1] = Val [4; 0] /\
+  g_u_mul_redc 64 1 [3] [5] [15] 0x1111111111111111 = Val [0] /\
   g_overflowing_pow 65 2 [3; 0] [41; 0] = Val ([36472996377170786403 mod 2 ^ 64; 1], false) /\
   g_overflowing_pow 65 2 [3; 0] [42; 0] = Val ([(3 ^ 42) mod 2 ^ 64; ((3 ^ 42) / 2 ^ 64) mod 2], true) /\
   g_wrapping_pow 65 2 [0; 1] [2; 0] = Val [0; 0] /\
